@@ -253,13 +253,11 @@ def rule_signal_once(ctx):
         fs = ctx.F.by_qname.get(q) or []
         return fs[0] if fs else getattr(ctx.F, "helpers", {}).get(q)
     n = 0
-    f = body(ONCE + "::new")
-    if f is not None:
-        T = ctx.T(f)
-        a = [T.args_of(c) for c in T.calls() if c["q"].endswith("Semaphore::new") or c["q"].endswith("Semaphore::const_new")]
-        ok = len(a) == 1 and a[0][0] == ("const", 0)
-        n += 1
-        ctx.ob(R, "Once::new", ok, "Semaphore::new(0)" if ok else "the signal is not created with zero permits: %s" % [show(x) for y in a for x in y], f.loc())
+    mods = [g for g in list(ctx.F.fns) + list(getattr(ctx.F, "helpers", {}).values()) if (g.qname.startswith("zksync_concurrency::signal::") or g.qname.startswith("<zksync_concurrency::signal::")) and not g.in_testonly()]
+    a = [(g, ctx.T(g).args_of(c)) for g in mods for c in ctx.T(g).calls() if c["q"].endswith("Semaphore::new") or c["q"].endswith("Semaphore::const_new")]
+    ok = bool(a) and all(x[1] and x[1][0] == ("const", 0) for x in a)
+    n += 1
+    ctx.ob(R, "Once::new", ok, "the semaphore is created with zero permits (%d construction site(s))" % len(a) if ok else "the signal is not created with zero permits: %s" % [show(y) for x in a for y in x[1]], a[0][0].loc() if a else None)
     f = body(ONCE + "::send")
     if f is not None:
         qs = [c["q"] for c in ctx.T(f).calls()]
